@@ -30,18 +30,22 @@ Definition mapping_small (m : mapping) : bool :=
 Definition enc_domain (ms : list mapping) : bool :=
   sorted_by pos_le ms && forallb mapping_small ms.
 
+(* original lines are 1-based in this crate; the v3 format cannot express line 0 *)
+Definition olines_ok (ms : list mapping) : bool :=
+  forallb (fun m => match m_orig m with Some o => 1 <=? o_line o | None => true end) ms.
+
 (* observations: enc = encode_mappings(ms); dec = decode(enc); reenc = encode(dec);
    lenc = line-only encoding of ms; ldec = decode(lenc) *)
 Definition chk_C12_enc (ms : list mapping) (enc : text) (dec : list mapping) (reenc : text)
                        (lenc : text) (ldec : list mapping) : N :=
   if negb (enc_domain ms) then 0
   else if negb (mlist_eqb dec (kept ms)) then 1
-  else if negb (opt_mlist_eqb (spec_decode enc) (kept ms)) then 2
+  else if olines_ok ms && negb (opt_mlist_eqb (spec_decode enc) (kept ms)) then 2
   else if negb (attr_agree ms dec) then 3
   else if negb (text_eqb reenc enc) then 4
   else if negb (forallb is_map_char enc && forallb is_map_char lenc) then 5
   else if negb (mlist_eqb ldec (line_firsts ms)) then 6
-  else if negb (opt_mlist_eqb (spec_decode lenc) (line_firsts ms)) then 7
+  else if olines_ok ms && negb (opt_mlist_eqb (spec_decode lenc) (line_firsts ms)) then 7
   else 0.
 
 (* decoder domain: every VLQ has at most 12 digits and every running value < 2^32 *)
